@@ -98,8 +98,12 @@ class Canonicalize(abc.RewriteRule):
 
         assert isinstance(node, self.CLASSES)
 
+        # only the statements written directly inside this block move up; a nested
+        # block of the other kind keeps its own contents.
         detached_stmts = [
-            stmt for stmt in node.body.walk() if not isinstance(stmt, node_type)
+            stmt
+            for stmt in node.body.blocks[0].stmts
+            if not isinstance(stmt, node_type)
         ]
         has_done_something = False
         for stmt in detached_stmts:
